@@ -79,7 +79,7 @@ func (c *vxCanvas) LineTo(x, y backend.Fl)                   { c.pathOpen = true
 func (c *vxCanvas) CubicTo(x1, y1, x2, y2, x3, y3 backend.Fl) {
 	c.pathOpen = true
 }
-func (c *vxCanvas) ClosePath()                                                  {}
+func (c *vxCanvas) ClosePath()                                                   {}
 func (c *vxCanvas) AddFont(font backend.Font, content []byte) *backend.FontChars { return nil }
 func (c *vxCanvas) DrawText(texts []backend.TextDrawing)                         {}
 func (c *vxCanvas) DrawRasterImage(image backend.RasterImage, width, height backend.Fl) {
@@ -104,19 +104,19 @@ func (c *vxCanvas) SetColorRgba(color parser.RGBA, stroke bool) {
 
 func (c *vxCanvas) SetColorPattern(pattern backend.Canvas, contentWidth, contentHeight backend.Fl, mat matrix.Transform, stroke bool) {
 }
-func (c *vxCanvas) SetBlendingMode(mode string)              {}
-func (c *vxCanvas) SetLineWidth(width backend.Fl)            {}
+func (c *vxCanvas) SetBlendingMode(mode string)                    {}
+func (c *vxCanvas) SetLineWidth(width backend.Fl)                  {}
 func (c *vxCanvas) SetDash(dashes []backend.Fl, offset backend.Fl) {}
-func (c *vxCanvas) SetStrokeOptions(backend.StrokeOptions)   {}
-func (c *vxCanvas) GetTransform() matrix.Transform           { return matrix.Identity() }
-func (c *vxCanvas) Transform(mt matrix.Transform)            {}
-func (c *vxCanvas) SetTextPaint(op backend.PaintOp)          {}
+func (c *vxCanvas) SetStrokeOptions(backend.StrokeOptions)         {}
+func (c *vxCanvas) GetTransform() matrix.Transform                 { return matrix.Identity() }
+func (c *vxCanvas) Transform(mt matrix.Transform)                  {}
+func (c *vxCanvas) SetTextPaint(op backend.PaintOp)                {}
 
 type vxPNode struct {
-	tag                                     string
-	kids                                    []*vxPNode
+	tag                                    string
+	kids                                   []*vxPNode
 	positioned, hasZ, floated, translucent bool
-	z                                       int
+	z                                      int
 }
 
 func (n *vxPNode) isContext() bool { return n.positioned || n.translucent || n.floated }
